@@ -1580,8 +1580,16 @@ h2_discard_headers_frame (struct lshpack_dec * const restrict decoder, const uns
         memset(&lsx, 0, sizeof(lsxpack_header_t));
         lsx.buf = tbptr;
         lsx.val_len = tbsz;
-        if (lshpack_dec_decode(decoder, psrc, endp, &lsx) != LSHPACK_OK)
-            break; /* HPACK decode failed; should probably send GOAWAY? */
+        const int rc = lshpack_dec_decode(decoder, psrc, endp, &lsx);
+        if (rc != LSHPACK_OK) {
+            /* HPACK decoder state can no longer be kept in sync with peer;
+             * connection error (same as in h2_parse_headers_frame()) */
+            h2_send_goaway_e(r->con,
+                             (rc == LSHPACK_ERR_BAD_DATA || 0 == lsx.name_len)
+                               ? H2_E_COMPRESSION_ERROR
+                               : H2_E_PROTOCOL_ERROR);
+            break;
+        }
     }
 }
 
